@@ -194,3 +194,58 @@ def make_secsi(device_type=None, sync=False, **kw):
     if sync:
         proto._thread = SyncDispatcher(proto)
     return proto, conn, log
+
+
+# ---------------------------------------------------------------------------------------------- virtual timers
+class VirtualTimer:
+    """threading.Timer replacement (harness process only): expiry is an explicit call of fire()."""
+
+    registry: list = []
+
+    def __init__(self, interval, function, args=None, kwargs=None):
+        self.interval = interval
+        self.function = function
+        self.args = args or ()
+        self.kwargs = kwargs or {}
+        self.started = False
+        self.cancelled = False
+        self.fired = False
+        self.daemon = True
+        self.name = "virtual"
+        VirtualTimer.registry.append(self)
+
+    def start(self):
+        self.started = True
+
+    def cancel(self):
+        self.cancelled = True
+
+    def is_alive(self):
+        return self.started and not self.cancelled and not self.fired
+
+    def join(self, timeout=None):
+        return None
+
+    def fire(self):
+        if self.is_alive():
+            self.fired = True
+            self.function(*self.args, **self.kwargs)
+            return True
+        return False
+
+
+class virtual_timers:
+    """Context manager installing VirtualTimer as threading.Timer."""
+
+    def __enter__(self):
+        self._real = threading.Timer
+        VirtualTimer.registry = []
+        threading.Timer = VirtualTimer
+        return VirtualTimer
+
+    def __exit__(self, *a):
+        threading.Timer = self._real
+
+    @staticmethod
+    def pending():
+        return [t for t in VirtualTimer.registry if t.is_alive()]
